@@ -549,7 +549,15 @@ def sigma(it, ranges, body_fn, label="sum"):
                 acc = s_add(acc, body_fn(list(idx)))
             return acc
     bvs = [z3.Int(fresh_name("k")) for _ in ranges]
-    body = body_fn(list(bvs))
+    # definedness conditions met while building the summand are obligations for every index IN RANGE
+    guard = [z(b_and(cmp(">=", v, lo), cmp("<", v, hi))) for v, (lo, hi) in zip(bvs, ranges)]
+    guard = [g for g in guard if not z3.is_true(g)]
+    it.ctx.pc.extend(guard)
+    try:
+        body = body_fn(list(bvs))
+    finally:
+        if guard:
+            del it.ctx.pc[len(it.ctx.pc) - len(guard):]
     if isinstance(body, Polar):
         raise Unsupported("sum of exp(i*phi) terms")
     if isinstance(body, Cx):
@@ -613,7 +621,44 @@ def _sigma_real(it, ranges, bvs, body, label):
     if fname not in it.ctx.sums:
         it.ctx.sums[fname] = SumTerm(fname, [(c, lo_t, hi_t) for c, (lo_t, hi_t) in zip(canon, cr)], cbody, term)
         it.ctx.sums[fname].params = args
+    if syntactically_nonneg(cbody):
+        # Sigma rule (monotonicity): a sum of terms that are squares / products of squares is non-negative
+        it.ctx._axiom("sum-nonneg", term >= 0)
     return term
+
+
+def syntactically_nonneg(e):
+    if z3.is_rational_value(e) or z3.is_int_value(e):
+        return e.numerator_as_long() >= 0
+    if not z3.is_app(e):
+        return False
+    k = e.decl().kind()
+    ch = e.children()
+    if k == z3.Z3_OP_MUL:
+        # pair up identical factors; remaining factors must be non-negative themselves
+        rest = []
+        for c in ch:
+            hit = None
+            for q, r in enumerate(rest):
+                if r.eq(c):
+                    hit = q
+                    break
+            if hit is None:
+                rest.append(c)
+            else:
+                rest.pop(hit)
+        return all(syntactically_nonneg(c) for c in rest)
+    if k == z3.Z3_OP_ADD:
+        return all(syntactically_nonneg(c) for c in ch)
+    if k == z3.Z3_OP_ITE:
+        return syntactically_nonneg(ch[1]) and syntactically_nonneg(ch[2])
+    if k == z3.Z3_OP_POWER and z3.is_int_value(ch[1]) and ch[1].as_long() % 2 == 0:
+        return True
+    if k == z3.Z3_OP_TO_REAL:
+        return syntactically_nonneg(ch[0])
+    if k == z3.Z3_OP_UNINTERPRETED and e.decl().name() in ("sqrt", "exp"):
+        return True
+    return False
 
 
 def arr_sum(it, a, axis=None):
@@ -1637,3 +1682,17 @@ def _fftfreq(it, n, d=1):
         k = idx[0]
         return ite(cmp("<=", k, half), r_div(k, r_mul(n, d), it.ctx), r_div(r_sub(k, n), r_mul(n, d), it.ctx))
     return Arr([n], f, "float")
+
+
+@ext("math.factorial")
+def _factorial(it, x):
+    if is_conc(x):
+        import math
+        f = Fraction(_num(x))
+        if f.denominator != 1 or f < 0:
+            raise PyException("ValueError", "factorial() only accepts integral non-negative values")
+        return math.factorial(int(f))
+    if not (is_z3(x) and z3.is_int(x)):
+        raise PyException("TypeError", "'float' object cannot be interpreted as an integer")
+    it.ctx.definedness(x >= 0, "factorial of a non-negative integer")
+    return z3.Function("fact", z3.IntSort(), z3.IntSort())(x)
